@@ -318,7 +318,7 @@ pub fn access_options(sh: &Shader, gi: usize) -> Vec<Access> {
     let g = &sh.globals[gi];
     let n = &g.name;
     let mut out = Vec::new();
-    let mk = |form: AccForm, partner: Option<usize>, label: &'static str| Access { g: gi, form, partner, label };
+    let mk = |form: AccForm, partner: Option<usize>, label: &'static str| Access { g: gi, form, partner, label: label.to_string() };
     match &g.kind {
         GKind::Buf { space, ty } => {
             let writable = matches!(space, Space::StorageRW | Space::Private | Space::Workgroup);
@@ -800,7 +800,7 @@ pub fn gen_io_struct(ch: &mut Ch, p: &Profile, names: &mut Names, role: IoRole) 
             let pos = ch.idx(members.len() + 1);
             members.insert(
                 pos,
-                Member { name: names.fresh(ch, "b", p.nonascii), ty, size_attr: None, align_attr: None, io: Io::Builtin(b) },
+                Member { name: names.fresh(ch, "b", p.nonascii), ty, size_attr: None, align_attr: None, io: Io::Builtin(b.to_string()) },
             );
         }
     }
@@ -812,7 +812,7 @@ pub fn gen_io_struct(ch: &mut Ch, p: &Profile, names: &mut Names, role: IoRole) 
             IoRole::FragmentOut => ("frag_depth", Ty::S(Sc::F32)),
             _ => unreachable!(),
         };
-        members.push(Member { name: names.fresh(ch, "b", p.nonascii), ty, size_attr: None, align_attr: None, io: Io::Builtin(b) });
+        members.push(Member { name: names.fresh(ch, "b", p.nonascii), ty, size_attr: None, align_attr: None, io: Io::Builtin(b.to_string()) });
     }
     StructDef { name, members }
 }
@@ -931,7 +931,7 @@ pub fn gen_shader(ch: &mut Ch, p: &Profile) -> Shader {
                                 !used_structs.contains(s)
                                     && sh.structs[*s].members.iter().all(|m| match &m.io {
                                         Io::Loc { loc, .. } => !used_locs.contains(loc),
-                                        Io::Builtin(b) => !used_builtins.contains(b),
+                                        Io::Builtin(b) => !used_builtins.contains(&b.as_str()),
                                         Io::None => true,
                                     })
                             })
@@ -942,7 +942,7 @@ pub fn gen_shader(ch: &mut Ch, p: &Profile) -> Shader {
                             let mut sd = gen_io_struct(ch, p, &mut names, IoRole::VertexIn);
                             // make locations/builtins disjoint from what this entry already takes
                             sd.members.retain(|m| match &m.io {
-                                Io::Builtin(b) => !used_builtins.contains(b),
+                                Io::Builtin(b) => !used_builtins.contains(&b.as_str()),
                                 _ => true,
                             });
                             for m in sd.members.iter_mut() {
@@ -975,7 +975,7 @@ pub fn gen_shader(ch: &mut Ch, p: &Profile) -> Shader {
                                         used_locs.push(*loc)
                                     }
                                 }
-                                Io::Builtin(b) => used_builtins.push(b),
+                                Io::Builtin(b) => used_builtins.push(leak(b)),
                                 Io::None => {}
                             }
                         }
@@ -984,7 +984,7 @@ pub fn gen_shader(ch: &mut Ch, p: &Profile) -> Shader {
                     }
                     for b in ["vertex_index", "instance_index"] {
                         if !used_builtins.contains(&b) && ch.chance(1, 8) {
-                            params.push(EParam::Builtin { name: names.fresh(ch, "p", 0), builtin: b, ty: Ty::S(Sc::U32) });
+                            params.push(EParam::Builtin { name: names.fresh(ch, "p", 0), builtin: b.to_string(), ty: Ty::S(Sc::U32) });
                             used_builtins.push(b);
                         }
                     }
@@ -994,7 +994,7 @@ pub fn gen_shader(ch: &mut Ch, p: &Profile) -> Shader {
                         sh.structs.push(sd);
                         EResult::Struct(sh.structs.len() - 1)
                     } else {
-                        EResult::Builtin { builtin: "position", ty: Ty::V(4, Sc::F32) }
+                        EResult::Builtin { builtin: "position".to_string(), ty: Ty::V(4, Sc::F32) }
                     };
                 }
                 Stage::Fragment => {
@@ -1017,12 +1017,12 @@ pub fn gen_shader(ch: &mut Ch, p: &Profile) -> Shader {
                         };
                         params.push(EParam::Struct { name: names.fresh(ch, "p", 0), st });
                     } else if ch.chance(2, 8) {
-                        params.push(EParam::Builtin { name: names.fresh(ch, "p", 0), builtin: "position", ty: Ty::V(4, Sc::F32) });
+                        params.push(EParam::Builtin { name: names.fresh(ch, "p", 0), builtin: "position".to_string(), ty: Ty::V(4, Sc::F32) });
                     }
                     result = match ch.below(if p.io_structs { 5 } else { 3 }) {
                         0 => EResult::Loc { loc: 0, ty: Ty::V(4, Sc::F32) },
                         1 => EResult::None,
-                        2 => EResult::Builtin { builtin: "frag_depth", ty: Ty::S(Sc::F32) },
+                        2 => EResult::Builtin { builtin: "frag_depth".to_string(), ty: Ty::S(Sc::F32) },
                         3 => EResult::Loc { loc: ch.below(8), ty: Ty::V(4, *ch.pick(&[Sc::F32, Sc::I32, Sc::U32])) },
                         _ => {
                             let sd = gen_io_struct(ch, p, &mut names, IoRole::FragmentOut);
@@ -1037,7 +1037,7 @@ pub fn gen_shader(ch: &mut Ch, p: &Profile) -> Shader {
                         sh.structs.push(sd);
                         params.push(EParam::Struct { name: names.fresh(ch, "p", 0), st: sh.structs.len() - 1 });
                     } else if ch.chance(3, 8) {
-                        params.push(EParam::Builtin { name: names.fresh(ch, "p", 0), builtin: "global_invocation_id", ty: Ty::V(3, Sc::U32) });
+                        params.push(EParam::Builtin { name: names.fresh(ch, "p", 0), builtin: "global_invocation_id".to_string(), ty: Ty::V(3, Sc::U32) });
                     }
                     let nd = ch.usize_range(1, 3);
                     for _ in 0..nd {
@@ -1058,6 +1058,12 @@ pub fn gen_shader(ch: &mut Ch, p: &Profile) -> Shader {
         }
     }
     sh
+}
+
+fn leak(s: &str) -> &'static str {
+    // builtin names come from a fixed small table
+    const NAMES: [&str; 12] = ["vertex_index", "instance_index", "position", "front_facing", "sample_index", "sample_mask", "frag_depth", "global_invocation_id", "local_invocation_id", "local_invocation_index", "workgroup_id", "num_workgroups"];
+    NAMES.iter().find(|n| **n == s).copied().unwrap_or("other")
 }
 
 fn sd_loc_dup(_used: &[u32], _loc: u32) -> bool {
